@@ -118,6 +118,14 @@ def decades(res: float) -> int:
     return int(min(17, max(0, d)))
 
 
+def worse(worst: float, res) -> float:
+    """max that does not swallow NaN: a non-finite residual becomes +inf."""
+    res = float(abs(res))
+    if not math.isfinite(res):
+        return math.inf
+    return max(worst, res)
+
+
 def exp100(x: float) -> int:
     if not math.isfinite(x):
         return -9999
